@@ -44,14 +44,14 @@ type c08desc struct {
 	role, suite, tlsv, op, them      string
 	ncerts                           int
 	der, signedby, time, uris, cn    string
-	sig, nonce, id, via              string
+	sig, nonce, id, via, live        string
 }
 
-var c08keysOrder = []string{"role", "suite", "tlsv", "op", "them", "ncerts", "der", "signedby", "time", "uris", "cn", "sig", "nonce", "id", "via"}
+var c08keysOrder = []string{"role", "suite", "tlsv", "op", "them", "ncerts", "der", "signedby", "time", "uris", "cn", "sig", "nonce", "id", "via", "live"}
 
 func (d c08desc) line() string {
-	return fmt.Sprintf("c08 hs role=%s suite=%s tlsv=%s op=%s them=%s ncerts=%d der=%s signedby=%s time=%s uris=%s cn=%s sig=%s nonce=%s id=%s via=%s",
-		d.role, d.suite, d.tlsv, d.op, d.them, d.ncerts, d.der, d.signedby, d.time, d.uris, d.cn, d.sig, d.nonce, d.id, d.via)
+	return fmt.Sprintf("c08 hs role=%s suite=%s tlsv=%s op=%s them=%s ncerts=%d der=%s signedby=%s time=%s uris=%s cn=%s sig=%s nonce=%s id=%s via=%s live=%s",
+		d.role, d.suite, d.tlsv, d.op, d.them, d.ncerts, d.der, d.signedby, d.time, d.uris, d.cn, d.sig, d.nonce, d.id, d.via, d.live)
 }
 
 func c08in(s string, set ...string) bool {
@@ -97,7 +97,7 @@ func c08parse(line string) (c08desc, bool) {
 		}
 	}
 	d = c08desc{role: m["role"], suite: m["suite"], tlsv: m["tlsv"], op: m["op"], them: m["them"], der: m["der"],
-		signedby: m["signedby"], time: m["time"], uris: m["uris"], cn: m["cn"], sig: m["sig"], nonce: m["nonce"], id: m["id"], via: m["via"]}
+		signedby: m["signedby"], time: m["time"], uris: m["uris"], cn: m["cn"], sig: m["sig"], nonce: m["nonce"], id: m["id"], via: m["via"], live: m["live"]}
 	n := m["ncerts"]
 	if len(n) == 0 || len(n) > 3 {
 		return d, false
@@ -111,7 +111,7 @@ func c08parse(line string) (c08desc, bool) {
 	ok := c08in(d.role, "dial", "accept") && c08in(d.suite, "ed", "g1", "g2") && c08in(d.tlsv, "12", "13") &&
 		c08isKey(d.op) && d.ncerts <= 3 && c08in(d.der, "ok", "bad", "two") && c08in(d.signedby, "self", "other") &&
 		c08in(d.time, "ok", "expired", "future") && c08isName(d.cn) && c08in(d.nonce, "ok", "short", "none") &&
-		c08in(d.via, "key", "relay")
+		c08in(d.via, "key", "relay") && c08in(d.live, "none", "v", "a", "o") && (d.role == "accept" || d.live == "none")
 	if d.uris != "none" {
 		for _, u := range strings.Split(d.uris, ",") {
 			p := strings.Split(u, "@")
